@@ -55,6 +55,7 @@ def init(repo_root):
     from . import ensemble_model  # noqa: F401
     from . import maps  # noqa: F401
     from . import mat2  # noqa: F401  content-level 2-D arrays / frames (injectors)
+    from . import opaque_coll  # noqa: F401  opaque dict / list / set values, index bags
     return _STATE["repo"], _STATE["reg"]
 
 
